@@ -5,9 +5,14 @@
 //!   svharness replay            (request lines on stdin)
 //!   svharness tables            (JSON dump of private constant tables)
 //!   svharness info              (JSON: features, CPU paths)
+//!
+//! Property modules are `src/cNN.rs`; `build.rs` collects them into the registry.
+//! Each exposes `gen` (deterministic request generator), `exec` (run one request
+//! against the implementation) and `tables` (constant tables for the extractor).
+#![allow(dead_code)]
 mod rng;
 mod util;
-mod c02;
+include!(concat!(env!("OUT_DIR"), "/registry.rs"));
 
 use std::io::{BufRead, Write};
 
@@ -17,16 +22,19 @@ pub enum Tier {
     Thorough,
 }
 
-type GenFn = fn(Tier, &mut rng::Rng, &mut dyn FnMut(String));
-type ExecFn = fn(&[&str]) -> String;
+pub type GenFn = fn(Tier, &mut rng::Rng, &mut dyn FnMut(String));
+pub type ExecFn = fn(&[&str]) -> String;
+/// Private constant tables of the implementation as `(name, JSON array text)`.
+pub type TablesFn = fn() -> Vec<(&'static str, String)>;
+type Reg = [(&'static str, GenFn, ExecFn, TablesFn)];
 
-fn registry() -> Vec<(&'static str, GenFn, ExecFn)> {
-    vec![("C02", c02::gen as GenFn, c02::exec as ExecFn)]
+pub fn json_list<T: std::fmt::Display>(xs: impl Iterator<Item = T>) -> String {
+    format!("[{}]", xs.map(|x| x.to_string()).collect::<Vec<_>>().join(","))
 }
 
-fn exec_line(line: &str, reg: &[(&'static str, GenFn, ExecFn)]) -> String {
+fn exec_line(line: &str, reg: &Reg) -> String {
     let toks: Vec<&str> = line.split(' ').collect();
-    let Some(&(_, _, ex)) = reg.iter().find(|(id, _, _)| *id == toks[0]) else {
+    let Some(&(_, _, ex, _)) = reg.iter().find(|(id, _, _, _)| *id == toks[0]) else {
         return "UNKNOWN-PROPERTY".to_string();
     };
     let args: Vec<&str> = toks[1..].to_vec();
@@ -47,7 +55,7 @@ fn main() {
             let prop = args[2].as_str();
             let tier = if args[3] == "thorough" { Tier::Thorough } else { Tier::Quick };
             let seed: u64 = args[4].parse().expect("seed");
-            let Some(&(_, g, _)) = reg.iter().find(|(id, _, _)| *id == prop) else {
+            let Some(&(_, g, _, _)) = reg.iter().find(|(id, _, _, _)| *id == prop) else {
                 eprintln!("unknown property {prop}");
                 std::process::exit(2);
             };
@@ -72,7 +80,13 @@ fn main() {
             }
         }
         Some("tables") => {
-            let _ = writeln!(out, "{}", tables_json());
+            let mut parts = Vec::new();
+            for (_, _, _, t) in &reg {
+                for (name, json) in t() {
+                    parts.push(format!("\"{name}\":{json}"));
+                }
+            }
+            let _ = writeln!(out, "{{{}}}", parts.join(","));
         }
         Some("info") => {
             let _ = writeln!(out, "{}", info_json());
@@ -83,17 +97,6 @@ fn main() {
         }
     }
     let _ = out.flush();
-}
-
-fn json_list<T: std::fmt::Display>(xs: impl Iterator<Item = T>) -> String {
-    format!("[{}]", xs.map(|x| x.to_string()).collect::<Vec<_>>().join(","))
-}
-
-fn tables_json() -> String {
-    use succinctly::verif_hooks as h;
-    let mut parts = Vec::new();
-    parts.push(format!("\"SELECT_IN_BYTE_TABLE\":{}", json_list(h::SELECT_IN_BYTE_TABLE.iter())));
-    format!("{{{}}}", parts.join(","))
 }
 
 fn info_json() -> String {
